@@ -8,7 +8,29 @@ from .. import posecases as PC
 TOL = 1e-12
 
 
+def group_theorem(run):
+    """T1 on the complete closed groups: all 20^3 triples of C4 / Pythagorean rotations (quick, thorough) and all 24^3 triples of Hurwitz
+    units (thorough): the model is a group acting on points and its matrix form is a homomorphism."""
+    import json
+    import os
+    from .. import tlc
+    specs = [('GSpec2', 'SE(2): 20^3 rotation triples')] + ([('GSpec3', 'SE(3): 24^3 Hurwitz triples')] if run.tier == 'thorough' else [])
+    for spec, label in specs:
+        d = tlc.scratch()
+        with open(os.path.join(d, 'cases.ndjson'), 'w') as f:
+            f.write(json.dumps({'k': 'R2', 'ta': [0, 0], 'ra': [], 'tb': [0, 0], 'rb': [], 'tc': [0, 0], 'rc': [], 'pt': [0, 0], 'dt': [0, 0], 'dr': [], 'laws': True, 'nq': []}) + '\n')
+        res = tlc.run('MC_GroupLaws', 'SPECIFICATION %s\nCONSTANTS K = 0\nINVARIANT AllLaws\n' % spec, keep_dir=d, timeout=3000)
+        try:
+            if res.violation:
+                raise tlc.TLCError('the pose model is not a group: %s\n%s' % (res.violation, res.out[-1500:]))
+            run.add_tlc(res, 'MC_GroupLaws %s (exhaustive)' % label)
+        finally:
+            res.cleanup()
+
+
 def check(run, cases=None):
+    if cases is None:
+        group_theorem(run)
     cases = cases if cases is not None else PC.gen_cases(run.tier, run.seed)
     old = EC.headroom_class
     EC.headroom_class = PC.headroom_class
